@@ -7,9 +7,15 @@ VARIANTS = [
  dict(id='c03-dim-alt-one-sigma', prop='C03', file=CP, expect='C03-D5', old="denom = _np.matmul(sigma_data[:, None], sigma_traces[None, :])", new="denom = _np.matmul(sigma_data[:, None], sigma_traces[None, :] ** 2)"),
  dict(id='c03-dim-second-moment-first-power', prop='C03', file=CP, expect='C03', old="self.ex2 += _np.sum(_traces ** 2, axis=0)", new="self.ex2 += _np.sum(_traces, axis=0)"),
  dict(id='c03-dim-dpa-unnormalised-zeros', prop='C03', file=DP, expect='C03-D5', old="result = normalized_ones - normalized_zeros", new="result = normalized_ones - accumulator_zeros"),
- dict(id='c03-silent-dim-regrouped', prop='C03', kind='silent', file=CP, old="common_1 = _np.sqrt(self.ex2 - self.processed_traces * ((self.ex / self.processed_traces)**2))", new="common_1 = _np.sqrt(self.ex2 - (self.ex ** 2) / self.processed_traces)"),
+ dict(id='c03-silent-dim-regrouped', prop='C03', kind='silent', file=CP, old="common_1 = _np.sqrt(self.ex2 - self.processed_traces * ((self.ex / self.processed_traces)**2))", new="common_1 = _np.sqrt(self.ex2 - ((self.ex / self.processed_traces) ** 2) * self.processed_traces)"),
  dict(id='c03-silent-dim-alt-regrouped', prop='C03', kind='silent', file=CP, old="sigma_traces = _np.sqrt(self.processed_traces * self.ex2 - (self.ex) ** 2)", new="n_traces = self.processed_traces\n        sigma_traces = _np.sqrt(n_traces * self.ex2 - self.ex * self.ex)"),
  dict(id='c03-dpa-raw-trace-sum-before-cast', prop='C03', expect='C03-D4', file='scared/distinguishers/dpa.py',
       edits=[('scared/distinguishers/dpa.py', "        self.processed_ones += _np.sum(data, axis=0)\n        traces = traces.astype(self.precision)\n", "        self.processed_ones += _np.sum(data, axis=0)\n        self.accumulator_traces += _np.sum(traces, axis=0)\n        traces = traces.astype(self.precision)\n"),
              ('scared/distinguishers/dpa.py', "        data = data.astype(self.precision)\n        self.accumulator_traces += _np.sum(traces, axis=0)\n", "        data = data.astype(self.precision)\n")]),
+ dict(id='c03-variance-squared-sum-first', prop='C03', expect='C03-D6', file='scared/distinguishers/cpa.py',
+      old="        common_1 = _np.sqrt(self.ex2 - self.processed_traces * ((self.ex / self.processed_traces)**2))\n", new="        common_1 = _np.sqrt(self.ex2 - self.ex ** 2 / self.processed_traces)\n"),
+ dict(id='c03-silent-variance-mean-times-sum', prop='C03', kind='silent', file='scared/distinguishers/cpa.py',
+      old="        common_1 = _np.sqrt(self.ex2 - self.processed_traces * ((self.ex / self.processed_traces)**2))\n", new="        mean_x = self.ex / self.processed_traces\n        common_1 = _np.sqrt(self.ex2 - self.processed_traces * mean_x * mean_x)\n"),
+ dict(id='c03-alt-sigma-divided-first', prop='C03', expect='C03-D6', file='scared/distinguishers/cpa.py',
+      old="        sigma_traces = _np.sqrt(self.processed_traces * self.ex2 - (self.ex) ** 2)\n", new="        sigma_traces = _np.sqrt(self.processed_traces * self.ex2 - (self.ex ** 2 / self.processed_traces) * self.processed_traces)\n"),
 ]
